@@ -201,6 +201,14 @@ theorem closed_run (s : WD) (evs : List Ev) (h : s.closed = true) : (s.run evs).
   | nil => exact h
   | cons e es ih => exact ih _ (closed_step s e h)
 
+theorem T_step (s : WD) (e : Ev) : (s.step e).T = s.T := by
+  cases e <;> simp only [WD.step] <;> (repeat' split) <;> rfl
+
+theorem T_run (s : WD) (evs : List Ev) : (s.run evs).T = s.T := by
+  induction evs generalizing s with
+  | nil => rfl
+  | cons e es ih => exact (ih (s.step e)).trans (T_step s e)
+
 def ticks (evs : List Ev) : Nat := (evs.filter (· == .tick)).length
 
 theorem phi_run (s : WD) (evs : List Ev) (h : s.WF) (hno : ∀ e ∈ evs, e ≠ .hb) :
